@@ -74,7 +74,7 @@ def check(ctx):
         L = rng.choice([1, 2, 3, 5, 8, 10, 20, 50, 2.5, 1.0, 7.25])
         n = rng.choice([1, 2, 3, 5, 9, 12, 25, 60])
         shape = rng.choice([(), (), (2,), (3,)]) if kind != 'rcov' else rng.choice([(2,), (3,)])
-        fam = rng.choice(['int', 'dyadic', 'tied', 'const'])
+        fam = rng.choice(['int', 'dyadic', 'tied', 'const', 'mixed', 'narrowint'])
         if fam == 'const':
             c = rng.randint(-9, 9) / 2
             vals = [c if shape == () else {'arr': (np.ones(shape) * c).tolist(), 'dtype': 'float64'} for _ in range(n)]
